@@ -56,10 +56,13 @@ class Sphere(CenteredScatterer):
         super().__init__(center)
 
         try:
-            if np.any(np.array(self.r) < 0):
-                raise InvalidScatterer(self, "radius is negative")
-            if np.any(np.isnan(np.array(self.r))):
-                raise InvalidScatterer(self, "radius is not a number")
+            # (a per-channel dictionary is checked channel by channel)
+            for r in (self.r.values() if isinstance(self.r, dict)
+                      else [self.r]):
+                if np.any(np.array(r) < 0):
+                    raise InvalidScatterer(self, "radius is negative")
+                if np.any(np.isnan(np.array(r))):
+                    raise InvalidScatterer(self, "radius is not a number")
         except TypeError:
             # Simplest solution to deal with spheres with a parameter or prior
             # as arguments, just don't check them. It might be worth doing some
@@ -110,10 +113,14 @@ class LayeredSphere(Sphere):
         # same checks as any other centered scatterer / sphere
         CenteredScatterer.__init__(self, center)
         try:
-            if np.any(self.t < 0):
-                raise InvalidScatterer(self, "layer thickness is negative")
-            if np.any(np.isnan(self.t)):
-                raise InvalidScatterer(self, "layer thickness is not a number")
+            for t in (self.t.values() if isinstance(self.t, dict)
+                      else [self.t]):
+                if np.any(np.array(t) < 0):
+                    raise InvalidScatterer(self,
+                                           "layer thickness is negative")
+                if np.any(np.isnan(np.array(t))):
+                    raise InvalidScatterer(
+                        self, "layer thickness is not a number")
         except TypeError:
             # thicknesses given as priors are not checked
             pass
